@@ -95,3 +95,117 @@ pub fn filter_block_match(
         .map(|(offset, key)| reader.key_may_match(*offset, key))
         .collect())
 }
+
+/// `(user key, sequence number, operation tag, value)`
+pub type Entry = (Vec<u8>, u64, u8, Vec<u8>);
+/// `(user key, sequence number, operation tag)`
+pub type IKey = (Vec<u8>, u64, u8);
+
+pub(crate) fn ikey_tuple(key: &crate::key::InternalKey) -> IKey {
+    (
+        key.get_user_key().to_vec(),
+        key.get_sequence_number(),
+        key.get_operation() as u8,
+    )
+}
+
+/// Metadata of one table file as recorded in a version.
+#[derive(Clone, Debug, PartialEq, Eq)]
+pub struct FileDump {
+    pub number: u64,
+    pub size: u64,
+    pub smallest: IKey,
+    pub largest: IKey,
+    pub allowed_seeks: i64,
+}
+
+/// Structured dump of the database state (taken under the database mutex).
+#[derive(Clone, Debug)]
+pub struct StateDump {
+    pub last_sequence: u64,
+    pub mem: Vec<Entry>,
+    pub imm: Option<Vec<Entry>>,
+    /// files of the current version per level
+    pub levels: Vec<Vec<FileDump>>,
+    /// file numbers per level of every version linked in the version set (oldest first)
+    pub versions: Vec<Vec<Vec<u64>>>,
+    /// `Arc::strong_count` of every linked version node (same order as `versions`)
+    pub version_refcounts: Vec<usize>,
+    pub tables_in_use: Vec<u64>,
+    pub snapshots: Vec<u64>,
+    pub wal_number: u64,
+    pub prev_wal_number: Option<u64>,
+    pub manifest_number: u64,
+    pub next_file_number: u64,
+    pub background_scheduled: bool,
+    pub has_immutable_flag: bool,
+    pub bad_state: Option<String>,
+    pub writer_queue_len: usize,
+    pub manual_compaction_pending: bool,
+}
+
+/// Internal transitions recorded for trace validation.
+#[derive(Clone, Debug, PartialEq, Eq)]
+pub enum Event {
+    /// memtable rotated; the new WAL number
+    Rotate { new_wal: u64 },
+    /// immutable memtable written to table `file` (size 0 = empty, no file added) at `level`
+    Flush { file: u64, level: usize, size: u64 },
+    /// file moved from `level` to `level + 1` without rewriting
+    TrivialMove { file: u64, level: usize },
+    /// a table compaction installed its results
+    Compaction {
+        level: usize,
+        inputs0: Vec<u64>,
+        inputs1: Vec<u64>,
+        smallest_snapshot: u64,
+        outputs: Vec<u64>,
+        manual: bool,
+    },
+    /// a file was removed by `remove_obsolete_files`
+    Delete { path: String },
+}
+
+static EVENTS: parking_lot::Mutex<Vec<(String, Event)>> = parking_lot::Mutex::new(Vec::new());
+
+/// Record an event for the database rooted at `db_path`.
+pub fn event(db_path: &str, event: Event) {
+    EVENTS.lock().push((db_path.to_string(), event));
+}
+
+/// Remove and return the events recorded so far for `db_path`.
+pub fn events_take(db_path: &str) -> Vec<Event> {
+    let mut guard = EVENTS.lock();
+    let mut taken = vec![];
+    let mut rest = vec![];
+    for (path, event) in guard.drain(..) {
+        if path == db_path {
+            taken.push(event);
+        } else {
+            rest.push((path, event));
+        }
+    }
+    *guard = rest;
+    taken
+}
+
+/// Scheduling points for deterministic interleaving tests.
+pub mod sched {
+    use std::sync::Arc;
+
+    type Hook = Arc<dyn Fn(&str, &'static str) + Send + Sync>;
+    static HOOK: parking_lot::RwLock<Option<Hook>> = parking_lot::RwLock::new(None);
+
+    /// Install (or remove) the process-wide scheduler callback `(db_path, point name)`.
+    pub fn install(hook: Option<Hook>) {
+        *HOOK.write() = hook;
+    }
+
+    /// A scheduling point. A no-op unless a scheduler is installed.
+    pub fn point(db_path: &str, name: &'static str) {
+        let hook = HOOK.read().clone();
+        if let Some(hook) = hook {
+            hook(db_path, name);
+        }
+    }
+}
